@@ -82,6 +82,16 @@ def vec_check(prop, tier, seed):
     return engine_check(prop, tier, seed, B.vec_run, B.VEC_MISMATCH_PROPS, VEC_ASSUMPTIONS, "vec_driver", "vec_check")
 
 
+STR_ASSUMPTIONS = [
+    "std::string::String, core::str::from_utf8, String::from_utf8_lossy and String::from_utf16 (the oracles the property names) are correct",
+    "bytes are modelled as numbers below 256; the model covers the boundary-checking operations and the decoders, the remaining operations are differential-only",
+]
+
+
+def str_check(prop, tier, seed):
+    return engine_check(prop, tier, seed, B.str_run, B.STR_MISMATCH_PROPS, STR_ASSUMPTIONS, "string_driver", "string_check")
+
+
 def engine_check(prop, tier, seed, run_fn, table, assumptions, driver, checker):
     t0 = time.time()
     st = prepare(prop)
@@ -197,6 +207,8 @@ def check(prop, tier, seed):
         return arena_check(prop, tier, seed)
     if prop in B.VEC_PROPS:
         return vec_check(prop, tier, seed)
+    if prop in B.STR_PROPS:
+        return str_check(prop, tier, seed)
     print("no engine for %s" % prop, file=sys.stderr)
     return 2
 
